@@ -236,7 +236,9 @@ func (i *interpreter) symConv(tDst, tSrc types.Type, x *Term) value {
 	case sIsInt && isFloatType(tDst):
 		if i.cfg.FloatMode == "real" {
 			var n *Term
-			if sSigned {
+			if l, _, ok := ts.liftInt(x); ok && sSigned {
+				n = l
+			} else if sSigned {
 				// signed value of a bit-vector as Int: ubv - 2^w * msb
 				u := ts.Generic("bv2nat", sInt, x)
 				msb := ts.BVCmp("bvslt", x, ts.BV(x.sort.W, 0))
